@@ -12,10 +12,11 @@ CONSTANTS
   Kinds = {"pk"}
   Defaults = {FALSE, TRUE}
   MaxArgs = 2
-  KwCalls = TRUE
+  KwCalls = FALSE
   MaxRet = 4
   DistinctRets = TRUE
   MaxUnionArgs = 1
+  EmitOneIn = 4
 INVARIANT PropertyHolds
 INVARIANT MachineIsOperator
 INVARIANT BinderAgrees
